@@ -50,14 +50,22 @@ func genC18(seed uint64, tier string) *plan.Plan {
 		n = 2 + r.IntN(2)
 	}
 	day := int64(0)
+	// with a re-used configuration object most sessions keep the same protocol / ServerName mode /
+	// client certificate (the application edits nothing between them) while the peer changes
+	reuse := pl.Cfg["reuse"] == 1
+	baseProto, baseSN, baseCli := int64(r.IntN(2)), int64(r.IntN(3)), int64(r.IntN(4))
+	var prev *plan.Op
 	for i := 0; i < n; i++ {
 		kind := []int64{0, 0, 0, 0, 0, 1, 2, 3}[r.IntN(8)]
 		proto := int64(r.IntN(2))
+		if reuse && r.IntN(10) < 8 {
+			kind, proto = 0, baseProto
+		}
 		if kind == 1 {
 			proto = 0
 		}
 		cert := int64(r.IntN(len(srvCertNames)))
-		if r.IntN(3) == 0 {
+		if r.IntN(3) == 0 || (reuse && r.IntN(2) == 0) {
 			cert = 0
 		}
 		d := []int64{0, 15, 25}[r.IntN(3)]
@@ -65,8 +73,20 @@ func genC18(seed uint64, tier string) *plan.Plan {
 			d = day
 		}
 		day = d
-		pl.Ops = append(pl.Ops, plan.Op{K: "session", A: kind, B: proto, C: cert, D: d,
-			N: []int64{int64(r.IntN(3)), int64(r.IntN(4)), int64(r.IntN(2)), int64(1 + r.IntN(3))}})
+		host := int64(0)
+		if r.IntN(3) == 0 {
+			host = 1 // a second collector address for which no certificate of the zoo is valid
+		}
+		sn, cli := int64(r.IntN(3)), int64(r.IntN(4))
+		if reuse && r.IntN(10) < 8 {
+			sn, cli = baseSN, baseCli
+			if prev != nil && r.IntN(2) == 0 {
+				host = 1 - prev.N[4]
+			}
+		}
+		op := plan.Op{K: "session", A: kind, B: proto, C: cert, D: d, N: []int64{sn, cli, int64(r.IntN(2)), int64(1 + r.IntN(3)), host}}
+		pl.Ops = append(pl.Ops, op)
+		prev = &pl.Ops[len(pl.Ops)-1]
 	}
 	genSchedule(r, pl, 0, 0)
 	return pl
@@ -79,7 +99,7 @@ type c18Expect struct {
 	why           string
 }
 
-func c18Expectation(proto, cert, day, snMode, cliCert, cliCA int, v6 bool) c18Expect {
+func c18Expectation(proto, cert, day, snMode, cliCert, cliCA int, v6 bool, hostB bool) c18Expect {
 	chains := cert != 1 && cert != 2
 	validTime := true
 	if cert == 3 && day >= 20 {
@@ -88,7 +108,7 @@ func c18Expectation(proto, cert, day, snMode, cliCert, cliCA int, v6 bool) c18Ex
 	if cert == 4 && day < 10 {
 		validTime = false
 	}
-	hasIPSAN := cert == 0 || cert == 3 || cert == 4
+	hasIPSAN := (cert == 0 || cert == 3 || cert == 4) && !hostB // IP SANs are those of host A
 	hasDNSSAN := cert == 0 || cert == 3 || cert == 4 || cert == 7
 	e := c18Expect{}
 	switch {
@@ -135,24 +155,33 @@ func runC18(pl *plan.Plan, out *plan.Outcome) {
 	reuse := cfgOr(pl, "reuse", 0) == 1
 	shared := &exporter.ExporterTLSClientConfig{}
 	cells := ""
+	lastName, lastCert := "", []byte(nil)
 	env.Go("driver", func() {
 		for si, op := range pl.Ops {
 			if op.K != "session" {
 				continue
 			}
-			n := make([]int64, 4)
+			n := make([]int64, 5)
 			copy(n, op.N)
+			hostB := n[4] == 1
 			kind, proto, cert, day := int(op.A), int(op.B)&1, int(op.C)%len(srvCerts), int(op.D)
 			snMode, cliCert, cliCA, maxV := int(n[0])%3, int(n[1])%4, int(n[2])&1, int(n[3])
-			cells += fmt.Sprintf("[%d %d %d %d %d %d %d %d]", kind, proto, cert, day, snMode, cliCert, cliCA, maxV)
+			cells += fmt.Sprintf("[%d %d %d %d %d %d %d %d %v]", kind, proto, cert, day, snMode, cliCert, cliCA, maxV, hostB)
 			// move the clock (both parties share it: certificates are judged at this instant)
 			target := bubbleEpoch.AddDate(0, 0, day).Add(time.Duration(si) * time.Hour)
 			if d := target.Sub(time.Now()); d > 0 {
 				env.Sleep(d)
 			}
 			port := 4739 + si
-			addr := net.JoinHostPort(host, fmt.Sprint(port))
-			where := fmt.Sprintf("session %d (%s, peer kind %d, server cert %s, day %d, serverName mode %d, client cert %d, client CA %d)", si, []string{"tls", "dtls"}[proto], kind, srvCertNames[cert], day, snMode, cliCert, cliCA)
+			h := host
+			if hostB {
+				h = "10.0.0.2"
+				if v6 {
+					h = "fd00::2"
+				}
+			}
+			addr := net.JoinHostPort(h, fmt.Sprint(port))
+			where := fmt.Sprintf("session %d (%s to %s, peer kind %d, server cert %s, day %d, serverName mode %d, client cert %d, client CA %d)", si, []string{"tls", "dtls"}[proto], addr, kind, srvCertNames[cert], day, snMode, cliCert, cliCA)
 			env.Logf("%s", where)
 			// exporter configuration
 			cfg := &exporter.ExporterTLSClientConfig{}
@@ -160,16 +189,26 @@ func runC18(pl *plan.Plan, out *plan.Outcome) {
 				cfg = shared
 				env.Count("probe.client_config_object_reused", 1)
 			}
-			cfg.CAData = z.CA.PEM
-			cfg.ServerName = []string{"", serverDNSName, "wrong.example"}[snMode]
-			cfg.CertData, cfg.KeyData = nil, nil
+			// The application writes a field only when its own intended value changes (a re-used
+			// configuration object is edited in place, it is not re-initialised): whatever the
+			// library may have stored in the object stays there.
+			wantName := []string{"", serverDNSName, "wrong.example"}[snMode]
+			var wantCert, wantKey []byte
 			if cliCert > 0 {
-				cfg.CertData, cfg.KeyData = cliCerts[cliCert].CertPEM, cliCerts[cliCert].KeyPEM
+				wantCert, wantKey = cliCerts[cliCert].CertPEM, cliCerts[cliCert].KeyPEM
 			}
+			if !reuse || si == 0 || wantName != lastName {
+				cfg.ServerName = wantName
+			}
+			if !reuse || si == 0 || string(wantCert) != string(lastCert) {
+				cfg.CertData, cfg.KeyData = wantCert, wantKey
+			}
+			cfg.CAData = z.CA.PEM
+			lastName, lastCert = wantName, wantCert
 			ein := exporter.ExporterInput{CollectorAddress: addr, CollectorProtocol: []string{"tcp", "udp"}[proto], ObservationDomainID: uint32(900 + si), TLSClientConfig: cfg, IsIPv6: v6, TempRefTimeout: 3600, CheckConnInterval: time.Hour}
 			switch kind {
 			case 0:
-				c18RealCollector(env, where, addr, proto, srvCerts[cert], cliCA == 1, z, ein, c18Expectation(proto, cert, day, snMode, cliCert, cliCA, v6), uint32(900+si))
+				c18RealCollector(env, where, addr, proto, srvCerts[cert], cliCA == 1, z, ein, c18Expectation(proto, cert, day, snMode, cliCert, cliCA, v6, hostB), uint32(900+si))
 			case 1:
 				c18CappedServer(env, where, addr, maxV, z, ein)
 			case 2:
@@ -374,7 +413,9 @@ func c18CappedServer(env *Env, where, addr string, maxV int, z *zoo, ein exporte
 		}
 		c.Close()
 	})
-	ein.TLSClientConfig.ServerName = serverDNSName
+	own := *ein.TLSClientConfig // this peer kind always names the server: use a private copy of the configuration
+	own.ServerName = serverDNSName
+	ein.TLSClientConfig = &own
 	var ep *exporter.ExportingProcess
 	var ierr error
 	Block("init", func() { ep, ierr = exporter.InitExportingProcess(ein) })
